@@ -312,7 +312,52 @@ def rule_markdown_entry(ctx, rep, RULE, desc=None):
                  loc(model.unit_of(md), md.node))
 
 
+def rule_interactive(ctx, rep):
+    """The interactive mode of the command-line tool renders each document the user enters, by itself: cli.interactive
+    is interpreted with input() scripted (two lines, end-of-file, one line, end-of-file, interrupt) and markdown()
+    replaced by a recorder; the two calls must get exactly the lines of the first and of the second document."""
+    model = ctx.model
+    if not model.has_func('cli.interactive'):
+        return
+    ia = model.func('cli.interactive')
+    md = model.func('markdown')
+    rep.instance('R-PASS-THROUGH')
+    script = ['first', 'second', EOFError, 'third', EOFError, KeyboardInterrupt]
+    it = Interp(model, loop_bound=16, while_bound=16)
+    it.reset_run(Oracle())
+    pos = [0]
+    calls = []
+
+    def fake_input(interp, args, kwargs):
+        x = script[pos[0]] if pos[0] < len(script) else KeyboardInterrupt
+        pos[0] += 1
+        if isinstance(x, str):
+            return x
+        raise Raised(ExcVal(x.__name__, ()))
+    it.intrinsics['builtins.input'] = fake_input
+    it.intrinsics['builtins.print'] = lambda interp, args, kwargs: None
+    R = object()
+    it.func_hooks[md.qualname] = lambda interp, fi, args, kwargs: calls.append((list(args[0]) if isinstance(args[0], list) else args[0],
+                                                                               args[1] if len(args) > 1 else kwargs.get('renderer'))) or 'rendered'
+    for short in ('cli._import_readline', 'cli._print_heading'):
+        if model.has_func(short):
+            it.func_hooks[model.func(short).qualname] = lambda interp, fi, args, kwargs: None
+    try:
+        it.call_function(ia, [R], {})
+        got = calls
+    except Raised as e:
+        got = 'raises %s' % e.exc.kind
+    want = [(['first\n', 'second\n'], R), (['third\n'], R)]
+    ok = got == want
+    rep.obligation('R-PASS-THROUGH', ok, {'cli.interactive': 'two documents in one session', 'markdown() calls': repr(got)[:160]})
+    if not ok:
+        rep.find('R-PASS-THROUGH', ia.short, 'interactive-documents',
+                 'in an interactive session with the documents "first / second" and "third", markdown() is called with %s; each '
+                 'document is to be rendered by itself: %s' % (repr(got)[:200], [w[0] for w in want]), loc(model.unit_of(ia), ia.node))
+
+
 def rule_cli(ctx, rep):
+    rule_interactive(ctx, rep)
     model = ctx.model
     md = model.func('markdown')
     # ---- cli.convert
